@@ -402,3 +402,13 @@ package raft
 //@   at_call p2praft.EncodeSnapshot assert [encodes-the-given-state] same(raw_st, newState)
 //@   ensures [success-means-encoded] err == nil ==> encodeOK == old(encodeOK) + 1
 //@   modifies *
+
+// "a newly added peer ... before it reports itself ready": the voter wait is over only when THIS peer is listed as a
+// voter in the configuration
+//@ func isVoter
+//@   property C17
+//@   ensures [only-this-server-as-a-voter] res ==> exists j int :: 0 <= j && j < len(cfg.Servers) && cfg.Servers[j].ID == srvID && cfg.Servers[j].Suffrage == hraft.Voter
+//@   ensures [a-listed-voter-is-found] (exists j int :: 0 <= j && j < len(cfg.Servers) && cfg.Servers[j].ID == srvID && cfg.Servers[j].Suffrage == hraft.Voter) ==> res
+//@   loop 1 (range cfg.Servers)
+//@     invariant forall j int :: 0 <= j && j < idx1 ==> !(cfg.Servers[j].ID == srvID && cfg.Servers[j].Suffrage == hraft.Voter)
+//@   modifies nothing
